@@ -242,27 +242,32 @@ Proof. destruct AuditExamplesB.C13.early_by_one as (A & B & C & D & E). repeat s
    [read_rows_c rows] is the eager reader of C14 (inr ps: accepted, the pipelines; inl e: refused);
    [file_pipelines rows ps] pairs ps with their pipeline_id tokens; [select l is] = the elements of l at the
    positions is; [good_prefix rows] = the rows of the pipelines before the first refused one;
-   [file_tick rnd tps a] = max 0 (ceil (rnd (arrival / rnd (1 / tps)))), the tick of C13_float_tick. *)
-From Eudoxia Require Import Model.Types Model.Timing Model.Csv Model.CsvLazy Model.TraceFile Proofs.CsvLazyFacts Proofs.TraceFileFacts.
+   [file_tick rnd tps a] = max 0 (ceil (rnd (arrival / rnd (1 / tps)))), the tick of C13_float_tick.
+   Every theorem of this part carries 0 < tps, the domain of the constructor (WorkloadTrace.__init__ divides by
+   ticks_per_second; for tps = 0 the model is totalised - tick length rnd (1/0) = 0, everything in call 0 - and says
+   nothing about the code, audit C P5); the runner of kind 44 refuses tps <= 0
+   (C13_file_runner_refuses_nonpositive_tps). *)
+From Eudoxia Require Import Model.Types Model.Timing Model.Codec Model.Csv Model.CsvLazy Model.TraceFile Model.RunTraceFile
+  Proofs.CsvLazyFacts Proofs.TraceFileFacts Proofs.AuditRepairFacts.
 Close Scope Q_scope.
 Close Scope Z_scope.
 
 (* (a) an accepted file, rows in any order, any rounding: the replay of the file IS the replay of part 1-4 on the
    arrival column the eager reader returns, call by call, read as positions in the file; and no call raises *)
-Theorem C13_file_replay_is_replay : forall (rnd : Q -> Q) tps n rows ps, read_rows_c rows = inr ps ->
+Theorem C13_file_replay_is_replay : forall (rnd : Q -> Q) tps n rows ps, (0 < tps)%Z -> read_rows_c rows = inr ps ->
   file_replay_with rnd tps n rows =
     (map (select (file_pipelines rows ps)) (replay rnd tps (map pm_arr ps) n), None).
-Proof. exact TraceFileFacts.file_replay_is_replay. Qed.
+Proof. exact AuditRepairFacts.FilePos.file_replay_is_replay. Qed.
 Print Assumptions C13_file_replay_is_replay.
 
 (* hence the theorems of parts 1-4, for files. C13_once_in_file_order / C13_one_answer_per_tick: every pipeline
    at most once, in file order, nobody skipped, one answer per call, never an exception *)
-Theorem C13_file_once_in_file_order : forall (rnd : Q -> Q) tps n rows ps, read_rows_c rows = inr ps ->
+Theorem C13_file_once_in_file_order : forall (rnd : Q -> Q) tps n rows ps, (0 < tps)%Z -> read_rows_c rows = inr ps ->
   exists m, m <= length ps /\
     concat (fst (file_replay_with rnd tps n rows)) = firstn m (file_pipelines rows ps) /\
     snd (file_replay_with rnd tps n rows) = None /\
     length (fst (file_replay_with rnd tps n rows)) = n.
-Proof. exact TraceFileFacts.file_once_in_file_order. Qed.
+Proof. exact AuditRepairFacts.FilePos.file_once_in_file_order. Qed.
 Print Assumptions C13_file_once_in_file_order.
 
 (* C13_float_tick: rows in arrival order; call t returns EXACTLY the pipelines of the file whose tick is t, in file
@@ -324,7 +329,7 @@ Print Assumptions C13_file_malformed_prefix.
    alone, and call T - the call in which the prefix alone hands out the LAST delivered batch - raises the refusal of
    the file (the look-ahead reaches the lost batch); if no call of the run hands that batch out (T = n) the run ends
    without an exception *)
-Theorem C13_file_malformed_replay : forall (rnd : Q -> Q) tps n rows e, read_rows_c rows = inl e ->
+Theorem C13_file_malformed_replay : forall (rnd : Q -> Q) tps n rows e, (0 < tps)%Z -> read_rows_c rows = inl e ->
   let good := fst (file_replay_with rnd tps n (good_prefix rows)) in
   let delivered := fst (lazy_batches rows) in
   match delivered with
@@ -336,7 +341,7 @@ Theorem C13_file_malformed_replay : forall (rnd : Q -> Q) tps n rows e, read_row
                   file_refusal_at rnd tps n rows = Some (AtTick T) /\
                   forall x, In x (last delivered []) -> In x (nth T good []))
   end.
-Proof. exact TraceFileFacts.file_malformed_replay. Qed.
+Proof. exact AuditRepairFacts.FilePos.file_malformed_replay. Qed.
 Print Assumptions C13_file_malformed_replay.
 
 (* rows of the prefix in arrival order: the call that raises is the tick (C13_float_tick) of the last batch before the
@@ -360,24 +365,46 @@ Print Assumptions C13_file_malformed_tick_any_rounding.
 
 (* never silently: as soon as the prefix alone would have handed out more than the batches before the last
    delivered one, the replay of the file has raised *)
-Theorem C13_file_malformed_never_silent : forall (rnd : Q -> Q) tps n rows e, read_rows_c rows = inl e ->
+Theorem C13_file_malformed_never_silent : forall (rnd : Q -> Q) tps n rows e, (0 < tps)%Z ->
+  read_rows_c rows = inl e ->
   fst (lazy_batches rows) <> [] ->
   length (concat (removelast (fst (lazy_batches rows)))) <
     length (concat (fst (file_replay_with rnd tps n (good_prefix rows)))) ->
   snd (file_replay_with rnd tps n rows) = Some e.
-Proof. exact TraceFileFacts.file_malformed_never_silent. Qed.
+Proof. exact AuditRepairFacts.FilePos.file_malformed_never_silent. Qed.
 Print Assumptions C13_file_malformed_never_silent.
 
 (* (c) what never reaches the simulator, however long the run: the well-formed pipelines of the file are, in file
    order, what the calls returned, then [mid] (not yet due, or dropped with the frame of the raising call), then the
    last batch WorkloadTrace received, then the batch lost inside batch_by_arrival *)
-Theorem C13_file_malformed_never_delivered : forall (rnd : Q -> Q) tps n rows e, read_rows_c rows = inl e ->
+Theorem C13_file_malformed_never_delivered : forall (rnd : Q -> Q) tps n rows e, (0 < tps)%Z ->
+  read_rows_c rows = inl e ->
   exists ps mid, read_rows_c (good_prefix rows) = inr ps /\
     let l := file_pipelines (good_prefix rows) ps in
     l = concat (fst (file_replay_with rnd tps n rows)) ++ mid ++
         last (fst (lazy_batches rows)) [] ++ last (arrival_groups l) [].
-Proof. exact TraceFileFacts.file_malformed_never_delivered. Qed.
+Proof. exact AuditRepairFacts.FilePos.file_malformed_never_delivered. Qed.
 Print Assumptions C13_file_malformed_never_delivered.
+
+(* (d) outside that domain: a case of kind 44 is ticks_per_second, the number of calls, the rows; the runner - what the
+   correspondence check compares with the implementation - answers [-1] for tps <= 0 whatever follows, and for
+   0 < tps its answer is the [file_replay] the theorems above speak about (with where the refusal came out) *)
+Theorem C13_file_runner_refuses_nonpositive_tps : forall tps rest,
+  (tps <= 0)%Z -> run_trace_file (tps :: rest) = bad_input.
+Proof. exact AuditRepairFacts.FilePos.run_trace_file_refuses_nonpositive_tps. Qed.
+Print Assumptions C13_file_runner_refuses_nonpositive_tps.
+
+Theorem C13_file_runner_answer : forall tps n rows l,
+  run_dec (dlet tps <- dZ; dlet n <- dnat; dlet rows <- dlist RunCsv.drow; dret (tps, n, rows)) l = Some (tps, n, rows) ->
+  (0 < tps)%Z ->
+  run_trace_file l =
+    eL (eL edelivered) (fst (file_replay tps n rows)) ++ esurfaced (surfaced_in rows (file_replay tps n rows)).
+Proof. exact AuditRepairFacts.FilePos.run_trace_file_answer. Qed.
+Print Assumptions C13_file_runner_answer.
+
+Example C13_file_runner_refuses_zero :
+  run_trace_file [0; 2; 0]%Z = bad_input /\ run_trace_file [-3; 2; 0]%Z = bad_input.
+Proof. exact AuditRepairFacts.FilePos.refuses_zero. Qed.
 
 (* Non-vacuity. [six]: one-operator pipelines p0..p5 arriving at 0, 0.07, 0.07, 0.3, 1, 1 (the doubles), 100 ticks/s,
    32 calls: p0 in tick 0, p1 and p2 in tick 8 (F7: the decimal 0.07 asks for tick 7), p3 in tick 30; it is
